@@ -1,12 +1,15 @@
 import time
-from . import bits
+from . import bits, slices
+import z3
+from pyvc.values import ClsN
 from pyvc import runtime
 runtime.NATIVE_CLASS_TAGS['Bits']='Bits'
 
 def register(reg):
   reg.declare_class('Bits', bits.F, slots=['_nbits','_uint','_next'])
   reg.module_globals[bits.F]=bits.module_globals
-  for c in bits.contracts()+bits.contracts2(): reg.add(c)
+  for c in bits.contracts()+bits.contracts2()+slices.contracts(): reg.add(c)
+  reg.module_globals[slices.H]={'b1':ClsN('Bits',z3.IntVal(1))}
 
 def extra_checks(prop,tier,seed,repo,reg,known):
   """module-level tables: complete concrete execution of the real defining statements."""
@@ -14,3 +17,6 @@ def extra_checks(prop,tier,seed,repo,reg,known):
   t0=time.time()
   obls=verify_tables(reg,bits.F,bits.TABLES)
   return [dict(key=f'{bits.F}::<module>',ok=True,obligations=obls,time=time.time()-t0,kind='pyvc-concrete',lines=None,ast_hash=None,info=None)]
+
+def extra_checks_c05(prop,tier,seed,repo,reg,known):
+  return []
